@@ -282,19 +282,24 @@ fn random_program(kind: &str, rng: &mut Rng) -> (usize, Vec<Vec<Op>>) {
         let len = 2 + rng.below(5) as usize;
         let mut ops = Vec::new();
         for _ in 0..len {
-            let d = if rng.below(4) == 0 { 1 } else { t as u64 + 1 };
+            // robust set: thread t uses owner id t + 1; only the last thread calls recover, and only for
+            // owner 1, whose thread (0) never releases: recover on an owner that is still releasing or that
+            // is shared between threads is outside recover's contract and outside the oracle
+            let d = t as u64 + 1;
             let o = match (kind, rng.below(12)) {
                 (_, 0..=4) => Op::Acq(d),
+                ("ruis", 5..=7) if t == 0 => if rng.below(2) == 0 { Op::Bor } else { Op::Acq(d) },
                 (_, 5) => Op::Rel { lock: false, front: false },
                 (_, 6) => Op::Rel { lock: false, front: true },
                 ("pool", _) => Op::Rel { lock: false, front: rng.below(2) == 0 },
                 (_, 7) => Op::Rel { lock: true, front: rng.below(2) == 0 },
                 (_, 8) => Op::Bor,
                 (_, 9) => Op::IsL,
-                ("ruis", 10) => Op::Rec { d: 1 + rng.below(nt as u64), lock: false },
-                ("ruis", _) => Op::Rec { d: 1 + rng.below(nt as u64), lock: true },
+                ("ruis", 10) if t == nt - 1 => Op::Rec { d: 1, lock: false },
+                ("ruis", 11) if t == nt - 1 => Op::Rec { d: 1, lock: true },
                 (_, _) => Op::Rel { lock: false, front: false },
             };
+            let o = if kind == "ruis" && t == 0 { match o { Op::Rel { .. } => Op::Acq(d), x => x } } else { o };
             ops.push(o);
         }
         prog.push(ops);
